@@ -651,7 +651,10 @@ def check_attr_table(prog, fv, r):
     for b in sorted(fv.live):
         for s in fv.blocks[b]["s"]:
             rv = s.get("rv")
-            if rv and rv["r"] == "agg" and rv.get("k") == "adt" and rv["v"] == "Err" and s["p"]["l"] == 0 and not s.get("x"):
+            if rv and rv["r"] == "agg" and rv.get("k") == "adt" and rv["v"] == "Err" and not s.get("x") and not s["p"].get("p") and \
+                    (s["p"]["l"] == 0 or re.search(r"Result<.*, \(\)>$", fv.f["locals"][s["p"]["l"]])):
+                # .. also the written-out Err(()) of an arm that was moved into a helper (analysed in place): it lands in the
+                # helper's result slot and reaches the caller's return through `?`
                 err_blocks.add(b)
     try:
         dpaths = enumerate_paths(fv, Renderer(fv), max_paths=40000)
